@@ -436,7 +436,7 @@ func packetAdaptationFieldSize(af *PacketAdaptationField) (size int) {
 		size += 1 + len(af.TransportPrivateData)
 	}
 	if af.HasAdaptationExtensionField {
-		size += 1 + int(calcPacketAdaptationFieldExtensionLength(af.AdaptationExtensionField))
+		size += 1 + packetAdaptationFieldExtensionSize(af.AdaptationExtensionField)
 	}
 	if af.StuffingLength > 0 {
 		size += af.StuffingLength
@@ -545,20 +545,26 @@ func writePacketAdaptationField(w *astikit.BitsWriter, af *PacketAdaptationField
 }
 
 func calcPacketAdaptationFieldExtensionLength(afe *PacketAdaptationExtensionField) (length uint8) {
-	length++
+	return uint8(packetAdaptationFieldExtensionSize(afe))
+}
+
+// packetAdaptationFieldExtensionSize returns the number of bytes writePacketAdaptationFieldExtension writes after the
+// length byte. It's not computed on the 8 bits of that byte: reserved bytes that fit no packet must not make a small size
+func packetAdaptationFieldExtensionSize(afe *PacketAdaptationExtensionField) (size int) {
+	size++
 	if afe.HasLegalTimeWindow {
-		length += 2
+		size += 2
 	}
 	if afe.HasPiecewiseRate {
-		length += 3
+		size += 3
 	}
 	if afe.HasSeamlessSplice {
-		length += ptsOrDTSByteLength
+		size += ptsOrDTSByteLength
 	}
 	if afe.ReservedLength > 0 {
-		length += uint8(afe.ReservedLength)
+		size += afe.ReservedLength
 	}
-	return length
+	return
 }
 
 func writePacketAdaptationFieldExtension(w *astikit.BitsWriter, afe *PacketAdaptationExtensionField) (bytesWritten int, retErr error) {
